@@ -561,9 +561,21 @@ fn c04(case: &Case, ctx: &Ctx, rpt: &mut Report) {
                         ast.seq.toks.first().map(|t| &t.node),
                         Some(Node::Tree { lead: true, trail: true })
                     );
+                    // (With a repetition-edge tree wildcard elsewhere in the expression the rest of
+                    // the segmentation needs that listed quirk as well, as in the branch below.)
                     let key = if first_is_rooted_tree
                         && caps.first().map_or(false, |c| c.map_or(false, |(cs, _)| cs == 0))
-                        && segmentation_ok(ast, model, &pc, &caps, rooted_quirk) == Tri::Yes
+                        && (segmentation_ok(ast, model, &pc, &caps, rooted_quirk) == Tri::Yes
+                            || segmentation_ok(
+                                ast,
+                                model,
+                                &pc,
+                                &caps,
+                                Quirks {
+                                    rooted_leading_tree_is_dotstar: true,
+                                    rep_edge_tree_any_form: true,
+                                },
+                            ) == Tri::Yes)
                     {
                         Some("rooted-leading-tree-captures-partial-component")
                     }
@@ -708,6 +720,28 @@ fn neg_probe<'t, P: wax::Pattern<'t> + Clone>(p: &P) -> Option<Not<WalkTree>> {
     guarded(|| std::path::Path::new("/nonexistent-waxmon").walk().not(p.clone()).ok()).flatten()
 }
 
+/// Consequence of the listed C01 finding (a rooted leading tree wildcard accepts partial
+/// components): true if every one of the given expressions — the members of a family that match
+/// `p` — begins with such a tree wildcard, is denied `p` by the reference model and is granted it
+/// once the model's named quirk is switched on.
+fn only_rooted_quirk_explains(matching: &[&str], p: &str) -> bool {
+    let rooted = Quirks {
+        rooted_leading_tree_is_dotstar: true,
+        rep_edge_tree_any_form: false,
+    };
+    !matching.is_empty()
+        && matching.iter().all(|e| {
+            parse::parse(e).ok().map_or(false, |a| {
+                if crate::refmodel::matcher::static_info(&a).rooting_first.is_empty() {
+                    return false;
+                }
+                let m = ModelPattern::single(a);
+                let pc = chars(p);
+                m.matches(&pc, Mode::May, Quirks::default()) == Tri::No && m.matches(&pc, Mode::May, rooted) != Tri::No
+            })
+        })
+}
+
 fn c07(case: &Case, ctx: &Ctx, rpt: &mut Report, rng: &mut Rng, stream: &ExprStream, idx: usize) {
     let budget = PathBudget {
         model: 6,
@@ -794,6 +828,22 @@ fn c07(case: &Case, ctx: &Ctx, rpt: &mut Report, rng: &mut Rng, stream: &ExprStr
                                     else if fam.kind == "repetition-is-iteration" && un && !wn && vanishing_repetition_exposes_tree(&fam) {
                                         Some("tree-wildcard-next-to-vanishing-repetition-not-encoded-as-edge")
                                     }
+                                    else if {
+                                        let matching: Vec<&str> = if wn {
+                                            vec![fam.whole.as_str()]
+                                        }
+                                        else {
+                                            fam.parts
+                                                .iter()
+                                                .zip(nps.iter())
+                                                .filter(|(_, n)| guarded(|| n.verif_residue(p.as_str()).is_some()) == Some(true))
+                                                .map(|(e, _)| e.as_str())
+                                                .collect()
+                                        };
+                                        only_rooted_quirk_explains(&matching, p)
+                                    } {
+                                        Some("rooted-leading-tree-matches-partial-component")
+                                    }
                                     else {
                                         None
                                     };
@@ -833,6 +883,22 @@ fn c07(case: &Case, ctx: &Ctx, rpt: &mut Report, rng: &mut Rng, stream: &ExprStr
                             }
                             else if fam.kind == "repetition-is-iteration" && u && !w && vanishing_repetition_exposes_tree(&fam) {
                                 Some("tree-wildcard-next-to-vanishing-repetition-not-encoded-as-edge")
+                            }
+                            else if {
+                                let matching: Vec<&str> = if w {
+                                    vec![fam.whole.as_str()]
+                                }
+                                else {
+                                    fam.parts
+                                        .iter()
+                                        .zip(parts.iter())
+                                        .filter(|(_, g)| guarded(|| g.is_match(p.as_str())) == Some(true))
+                                        .map(|(e, _)| e.as_str())
+                                        .collect()
+                                };
+                                only_rooted_quirk_explains(&matching, p)
+                            } {
+                                Some("rooted-leading-tree-matches-partial-component")
                             }
                             else {
                                 None
@@ -1393,7 +1459,44 @@ pub fn c09_key(ast: Option<&Ast>) -> Option<&'static str> {
 
 fn c09_paths(q: &Queried, is_match: &dyn Fn(&str) -> Option<bool>, paths: &[String], alphabet: &[char], ast: Option<&Ast>, ctx: &Ctx, rpt: &mut Report, rng: &mut Rng) {
     // A combinator with an empty pattern among its members (listed finding).
-    let has_empty_member = q.is_any && q.label.get("any").and_then(|a| a.as_array()).map_or(false, |a| a.iter().any(|e| e.as_str() == Some("")));
+    // Listed finding: the fold walks the alternatives of a combinator backwards and stops at the
+    // empty pattern (a bare leaf), dropping it and every pattern listed before it in the same
+    // (possibly nested) combinator. Only a matched path that is matched by a dropped member and
+    // by no member that the fold kept is explained by it.
+    let members: Vec<String> = if q.is_any {
+        q.label.get("any").and_then(|a| a.as_array()).map_or(Vec::new(), |a| a.iter().filter_map(|e| e.as_str().map(String::from)).collect())
+    }
+    else {
+        Vec::new()
+    };
+    let mut dropped = vec![false; members.len()];
+    {
+        let sizes: Vec<usize> = q
+            .label
+            .get("nested_group_sizes")
+            .and_then(|g| g.as_array())
+            .map_or(Vec::new(), |g| g.iter().filter_map(|n| n.as_u64().map(|n| n as usize)).collect());
+        let sizes = if sizes.is_empty() || sizes.iter().sum::<usize>() != members.len() { vec![members.len()] } else { sizes };
+        let mut at = 0;
+        for n in sizes {
+            if let Some(last) = members[at..at + n].iter().rposition(|e| e.is_empty()) {
+                for d in dropped[at..=at + last].iter_mut() {
+                    *d = true;
+                }
+            }
+            at += n;
+        }
+    }
+    let member_globs: Vec<Option<Glob>> = members.iter().map(|e| Glob::new(e).ok()).collect();
+    let explained_by_empty_member = |p: &str| {
+        let hit = |want: bool| {
+            member_globs
+                .iter()
+                .zip(dropped.iter())
+                .any(|(g, d)| *d == want && g.as_ref().map_or(false, |g| guarded(|| g.is_match(p)) == Some(true)))
+        };
+        hit(true) && !hit(false)
+    };
     if q.exhaustive != Some(When::Always) {
         rpt.bucket("verdict:not-always");
         return;
@@ -1439,7 +1542,7 @@ fn c09_paths(q: &Queried, is_match: &dyn Fn(&str) -> Option<bool>, paths: &[Stri
             rpt.evaluations += 1;
             pairs += 1;
             if !got {
-                let key = if has_empty_member {
+                let key = if explained_by_empty_member(p) {
                     Some("empty-pattern-in-combinator-hides-earlier-patterns-from-the-exhaustiveness-fold")
                 }
                 else if (p.is_empty() || p == "/") && is_match(&child) == Some(false) {
